@@ -803,6 +803,9 @@ def r_config_plumbing(repo, rep, R):
     dicts = []
     for c_ in direct:
         stars = [v for k, v in c_[3] if k is None]
+        if not stars and c_[3] and all(k is not None for k, _ in c_[3]):
+            # the walker has spelt `**{'a': x, ..}` out as keywords a=x, ..
+            stars = [('dict', tuple((C(k), v) for k, v in c_[3]))]
         rep.check(len(stars) == 1 and stars[0][0] == 'dict', R, w2, 'parsing.run:direct:kwargs', 'the in-process call passes the option dictionary as **kwargs',
                   'the in-process call does not pass one literal option dictionary with ** (%s)' % [show(v)[:40] for v in stars])
         dicts += [v for v in stars if v[0] == 'dict']
